@@ -47,14 +47,14 @@ Proof. vm_compute. discriminate. Qed.
 (* ---- the Rust text of ignore_attribute (context.rs), translated by tools/rs2v.py on every run (Generated/Code.v), IS the
    filter model for every filter state and every attribute type code, and so, run from the decoder's initial state over
    the type codes of any message, admits exactly what the ordering rule of the property text admits *)
-From Rustun Require Import Base.GRes Generated.Code Codec.Wire Proofs.CodeAgreeCodec.
+From Rustun Require Import Base.GRes Generated.Code Codec.Wire Proofs.CodeAgreeFilter.
 Theorem C09_code_is_model : forall f ty,
   gen_ignore_attribute (conv_filter f) ty
   = GOk (fst (ignore_attribute f (kind_of_type ty)), conv_filter (snd (ignore_attribute f (kind_of_type ty)))).
-Proof. exact CodeAgreeCodec.gen_ignore_attribute_agrees. Qed.
+Proof. exact CodeAgreeFilter.gen_ignore_attribute_agrees. Qed.
 Theorem C09_code_is_rfc_rule : forall tys,
   gen_run {| AttributeFilter_message_integrity := false; AttributeFilter_message_integrity_sha256 := false; AttributeFilter_fingerprint := false |} tys
   = allow {| s_mi := false; s_sha := false; s_fp := false |} (map kind_of_type tys).
-Proof. exact CodeAgreeCodec.code_filter_is_rfc_rule. Qed.
+Proof. exact CodeAgreeFilter.code_filter_is_rfc_rule. Qed.
 Print Assumptions C09_code_is_model.
 Print Assumptions C09_code_is_rfc_rule.
